@@ -10,7 +10,7 @@ def run(tier, replay=None):
     out = Outcome(PID, tier)
     wd = os.path.join(WORK, PID)
     rvh = build_harness()
-    cases, gres = generate("Gen_Conform_inj", 500 if tier == "quick" else 12000, "c05")
+    cases, gres = generate("Gen_Conform_inj", 500 if tier == "quick" else 12000, "c05", out)
     out.add_tlc(gres)
     if replay:
         cases = [json.load(open(replay))["witness"]["case"]]
